@@ -36,6 +36,36 @@ theorem C14_compressed_column (w : W) (hI : WInv w) (n0 : Node) (rest : List Nod
   unfold Range.slice Range.count
   rw [if_pos (by omega), if_pos (by omega)]
 
+/-- **IEEE column (2 09 YYY), constant form, any request**: a column whose value is written once (`NBINC = 0`)
+gives that value to every subset of the request and the reader stands right behind NBINC — nothing is skipped.
+(The library skipped `nbits·(from−1)` and `nbits·(n−to)` bits here when a range was asked for: repaired.) -/
+theorem C14_ieee_column_const (r : R) (cb : Node) (col : List Node) (g : Range) (v0 : Nat)
+    (rest : List Bool) (hI : RInv r) (hnb : 1 ≤ cb.enc.nbits ∧ cb.enc.nbits ≤ 64)
+    (hb : r.bits = bitsMSB cb.enc.nbits.toNat v0 ++ bitsMSB 6 0 ++ rest) :
+    ∃ r', getIeeeCompressed r (cb :: col) g =
+        some (r', (cb :: col).map (fun n => ieeeSetv n (v0 % 2^cb.enc.nbits.toNat))) ∧
+      r'.bits = rest ∧ RInv r' :=
+  getIeeeCompressed_const r cb col g v0 rest hI hnb hb
+
+/-- **IEEE column, listed form, any slice, any encoder**: for *every* bit string of the listed form (any first
+value, any non-zero NBINC) a request `from..to` returns exactly the values of subsets `from..to` and leaves the
+reader behind the whole column -/
+theorem C14_ieee_column_listed (r : R) (cb : Node) (col : List Node) (g : Range) (v0 k : Nat)
+    (vals : List Nat) (rest : List Bool) (hI : RInv r) (hnb : 1 ≤ cb.enc.nbits ∧ cb.enc.nbits ≤ 64)
+    (hk0 : 0 < k) (hk63 : k < 64) (hg : g.OK) (hlen : vals.length = g.nsub)
+    (hb : r.bits = bitsMSB cb.enc.nbits.toNat v0 ++ bitsMSB 6 k ++ vals.flatMap (bitsMSB cb.enc.nbits.toNat) ++ rest) :
+    ∃ r', getIeeeCompressed r (cb :: col) g =
+        some (r', zipWithNodes ieeeSetv (cb :: col) ((g.slice vals).map (· % 2^cb.enc.nbits.toNat))) ∧
+      r'.bits = rest ∧ RInv r' :=
+  getIeeeCompressed_listed r cb col g v0 k vals rest hI hnb hk0 hk63 hg hlen hb
+
+/-- the hypotheses are met: three 32-bit values listed (NBINC = 32), subsets 2..3 asked for -/
+example :
+    let r := R.ofBytes [0x40, 0x49, 0x0f, 0xdb, 0x81, 0x01, 0x24, 0x3f, 0x6c, 0xfe, 0x00, 0x00, 0x03, 0x0b, 0xdb, 0xa5, 0xe4]
+    let cb : Node := { desc := 12101, enc := { type := .ieee, nbits := 32 } }
+    (getIeeeCompressed r [cb, cb] (⟨3, 2, 3⟩ : Range)).map (fun p => p.2.map (·.val)) =
+      some [(ieeeSetv cb 0x3f800000).val, (ieeeSetv cb 0xc2f6e979).val] := by decide +kernel
+
 /-- a request `from..to` keeps exactly `to − from + 1` subsets -/
 theorem C14_slice_length {α} (g : Range) (hg : 1 ≤ g.from_ ∧ g.from_ ≤ g.to ∧ g.to ≤ g.nsub) (l : List α)
     (hl : l.length = g.nsub) : (g.slice l).length = (g.to - g.from_ + 1).toNat := by
